@@ -72,3 +72,16 @@ package query
 //@   loop 1:
 //@     invariant true
 //@   assert at alloc:Not: !typeis(subQ, "*caseQ") && !(typeis(subQ, "*Type") && as(subQ, "*Type").Child == nil)
+
+// ---------------------------------------------------------------------------
+// C24 / C07: decoding a wire query is total
+// ---------------------------------------------------------------------------
+
+// No precondition: a nil message, a message with an unset oneof and every set
+// variant must yield a query or an error - never a panic (the gRPC server has
+// no recovery interceptor). The per-variant decoders are abstracted.
+// (Assumption, flag notypednil: the oneof wrapper stored in p.Query is never a
+// typed nil pointer - protobuf decoding allocates it.)
+//@ func query.QFromProto
+//@   flag notypednil=true
+//@   ensures true
